@@ -899,6 +899,7 @@ func srvRunChunk(exe string, scs []srvScenario, results []srvResult, lo, hi int)
 	}
 	rd := bufio.NewReaderSize(stdout, 1<<20)
 	i := lo
+	polluted := false
 	for i < hi {
 		line, err := rd.ReadBytes('\n')
 		if len(bytes.TrimSpace(line)) > 0 {
@@ -906,6 +907,11 @@ func srvRunChunk(exe string, scs []srvScenario, results []srvResult, lo, hi int)
 			if json.Unmarshal(line, &r) == nil {
 				results[i] = r
 				i++
+				if len(r.Leak) > 0 || r.Hang {
+					// leaked goroutines would be attributed to the following scenarios: fresh process
+					polluted = true
+					break
+				}
 			}
 		}
 		if err != nil {
@@ -914,6 +920,11 @@ func srvRunChunk(exe string, scs []srvScenario, results []srvResult, lo, hi int)
 	}
 	done := make(chan struct{})
 	go func() { _ = cmd.Wait(); close(done) }()
+	if polluted {
+		_ = cmd.Process.Kill()
+		<-done
+		return i
+	}
 	select {
 	case <-done:
 	case <-time.After(40 * time.Second):
